@@ -12,7 +12,7 @@ VARIABLES hist, done
 gvars == <<vars, hist, done>>
 ASSUME EmitReset
 
-ObsP == [idx |-> idx', phash |-> phash', store |-> store', online |-> online',
+ObsP == [idx |-> idx', phash |-> phash', store |-> store', online |-> online', space |-> space',
          pendn |-> [p \in Peers |-> Len(pend'[p])],
          rnd |-> [p \in Peers |-> [st |-> rnd'[p].st, cur |-> rnd'[p].cur, nreq |-> rnd'[p].nreq,
                                    new |-> rnd'[p].new, chg |-> rnd'[p].chg, rem |-> rnd'[p].rem]],
@@ -21,7 +21,7 @@ Rec(a, p, q, i, c, out) == hist' = Append(hist, [a |-> a, p |-> p, q |-> q, i |-
 NoOut == [x |-> 0]
 
 CheckOut(p) == LET q == rnd[p].cur IN
-                 [res |-> IF ~online[q] THEN "fail" ELSE IF idx[p] = idx[q] THEN "equal" ELSE "differs"]
+                 [res |-> IF ~online[q] THEN "fail" ELSE IF ~space[q] THEN "missing" ELSE IF idx[p] = idx[q] THEN "equal" ELSE "differs"]
 DiffOut(p)  == LET q == rnd[p].cur IN
                  IF ~online[q] THEN [res |-> "fail"]
                  ELSE [res |-> "ok", new |-> DNew(idx[p], idx[q]), chg |-> DChg(idx[p], idx[q]), rem |-> DRem(idx[p], idx[q])]
@@ -42,6 +42,7 @@ GenStep ==
          \/ IndexApply(p) /\ Rec("IndexApply", p, NoPeer, Head(pend[p]).id, "", [u |-> Head(pend[p])])
          \/ RoundBegin(p) /\ Rec("RoundBegin", p, NoPeer, "", "", NoOut)
          \/ RoundCheck(p) /\ Rec("RoundCheck", p, rnd[p].cur, "", "", CheckOut(p))
+         \/ RoundPush(p) /\ Rec("RoundPush", p, rnd[p].cur, "", "", [res |-> IF online[rnd[p].cur] THEN "ok" ELSE "fail"])
          \/ RoundDiff(p) /\ Rec("RoundDiff", p, rnd[p].cur, "", "", DiffOut(p))
          \/ RoundApply(p) /\ Rec("RoundApply", p, rnd[p].cur, "", "", ApplyOut(p))
     \/ \E t \in tasks : TreeSync(t) /\ Rec("TreeSync", t.f, t.t, t.i, t.k, SyncOut(t))
@@ -51,6 +52,6 @@ GenNext == IF Len(hist) < GenDepth
 GenSpec == GenInit /\ [][GenNext]_gvars
 
 Behaviour == [spec |-> "HeadSync", peers |-> Peers, peerseq |-> PeerSeq, trees |-> Trees, acl |-> Acl, kv |-> Kv,
-              changes |-> Changes, maxpend |-> MaxPend, steps |-> hist]
+              changes |-> Changes, maxpend |-> MaxPend, nospace |-> NoSpace, steps |-> hist]
 Emit == EmitWhen(done, Behaviour)
 =============================================================================
